@@ -276,7 +276,7 @@ func (s *Server) Run(addr string, opt ...Option) error {
 				defer func() {
 					if r := recover(); r != nil {
 						verifPoint("conn.recovered", localConnID, 0)
-						s.logger.Error("Caught panic while serving request", "op", op, "conn", localConnID, "conn/req", fmt.Sprintf("%+v: %+v", c, r))
+						s.logger.Error("Caught panic while serving request", "op", op, "conn", localConnID, "conn/req", fmt.Sprintf("%v: %+v", c.RemoteAddr(), r))
 					}
 				}()
 			}
